@@ -122,6 +122,12 @@ fn assert_required_mint_scripts(
 }
 
 fn min_fee(tx_builder: &TransactionBuilder) -> Result<Coin, JsError> {
+    #[cfg(csl_verif)]
+    if crate::verif_oracle::enter(b'F') {
+        let r = min_fee(tx_builder);
+        crate::verif_oracle::leave(b'F', r.as_ref().ok().map(|c| u64::from(c)));
+        return r;
+    }
     // Commented out for performance, `min_fee` is a critical function
     // This was mostly added here as a paranoid step anyways
     // If someone is using `set_mint` and `add_mint*` API function, everything is expected to be intact
@@ -1105,6 +1111,8 @@ impl TransactionBuilder {
     /// Add explicit output via a TransactionOutput object
     pub fn add_output(&mut self, output: &TransactionOutput) -> Result<(), JsError> {
         let value_size = output.amount.to_bytes().len();
+        #[cfg(csl_verif)]
+        crate::verif_oracle::log(b'S', Some((value_size > self.config.max_value_size as usize) as u64));
         if value_size > self.config.max_value_size as usize {
             return Err(JsError::from_str(&format!(
                 "Maximum value size of {} exceeded. Found: {}",
@@ -1858,6 +1866,8 @@ impl TransactionBuilder {
         plutus_data: Option<DataOption>,
         script_ref: Option<ScriptRef>,
     ) -> Result<bool, JsError> {
+        #[cfg(csl_verif)]
+        crate::verif_oracle::log(b'C', Some(0));
         let fee = match &self.fee {
             None => self.min_fee(),
             // generating the change output involves changing the fee
@@ -1917,6 +1927,8 @@ impl TransactionBuilder {
                         let min_ada = calc.calculate_ada()?;
                         amount_clone.set_coin(&min_ada);
 
+                        #[cfg(csl_verif)]
+                        crate::verif_oracle::log(b'S', Some((amount_clone.to_bytes().len() > max_value_size as usize) as u64));
                         Ok(amount_clone.to_bytes().len() > max_value_size as usize)
                     }
                     fn pack_nfts_for_change(
@@ -2023,6 +2035,8 @@ impl TransactionBuilder {
                             let min_ada = calc.calculate_ada()?;
                             amount_clone.set_coin(&min_ada);
 
+                            #[cfg(csl_verif)]
+                            crate::verif_oracle::log(b'S', Some((amount_clone.to_bytes().len() > max_value_size as usize) as u64));
                             if amount_clone.to_bytes().len() > max_value_size as usize {
                                 output.amount = old_amount;
                                 break;
@@ -2379,6 +2393,8 @@ impl TransactionBuilder {
     /// You can use `get_auxiliary_data` or `build_tx`
     pub fn build(&self) -> Result<TransactionBody, JsError> {
         let (body, full_tx_size) = self.build_and_size()?;
+        #[cfg(csl_verif)]
+        crate::verif_oracle::log(b'T', Some((full_tx_size > self.config.max_tx_size as usize) as u64));
         if full_tx_size > self.config.max_tx_size as usize {
             Err(JsError::from_str(&format!(
                 "Maximum transaction size of {} exceeded. Found: {}",
